@@ -6,6 +6,7 @@ CONSTANTS
   StrLens = {5}
   CallocShapes <- ShapesPool4
   SrcOffsets = {0, 1}
+  CallocWraps <- WrapsAll
   HugeSizes <- HugeAll
   Levels = {0, 4, 5}
   Obs <- ObsEmit
